@@ -923,6 +923,58 @@ func allocCheck(r *hlib.Run) {
 	}
 }
 
+// hugeImage (thorough tier): a full 65535x65535 4:2:0 image, 4096*4096 real Add6 calls into
+// a counting writer: exactly that many units are accepted, only the last one writes EOI, one
+// more is ErrTooManyAddNCalls. Implementation-side oracle only (no op lines).
+type tailWriter struct {
+	n        int64
+	last     [2]byte
+	eoiEarly bool
+}
+
+func (w *tailWriter) Write(p []byte) (int, error) {
+	if len(p) >= 2 {
+		w.last[0], w.last[1] = p[len(p)-2], p[len(p)-1]
+	} else if len(p) == 1 {
+		w.last[0], w.last[1] = w.last[1], p[0]
+	}
+	w.n += int64(len(p))
+	return len(p), nil
+}
+
+func hugeImage(r *hlib.Run) {
+	enc := &lj.Encoder{}
+	w := &tailWriter{}
+	out := hlib.Guard(func() string {
+		if err := enc.Reset(w, lj.ColorTypeYCbCr420, 65535, 65535, nil); err != nil {
+			return "reset: " + err.Error()
+		}
+		total := 4096 * 4096
+		b := &lj.Array6BlockI16{}
+		for i := 0; i < total; i++ {
+			b[0][0] = int16(i%2047 - 1023)
+			b[i%6][1+i%63] = int16(i%511 - 255)
+			if err := enc.Add6(w, b); err != nil {
+				return fmt.Sprintf("unit %d of %d: %v", i, total, err)
+			}
+			b[i%6][1+i%63] = 0
+			isEOI := w.last == [2]byte{0xFF, 0xD9}
+			if isEOI != (i == total-1) {
+				return fmt.Sprintf("unit %d of %d: EOI written = %v", i, total, isEOI)
+			}
+		}
+		if err := enc.Add6(w, b); err != lj.ErrTooManyAddNCalls {
+			return fmt.Sprintf("unit %d: got %v, want ErrTooManyAddNCalls", total, err)
+		}
+		return "ok"
+	})
+	r.Extra("huge_image_bytes", w.n)
+	r.Count("oracle:huge-image-65535x65535-420")
+	if out != "ok" {
+		r.Fail("protocol:huge-image", "65535x65535 4:2:0, all 16777216 units: "+out, "hugeImage in harness/cmd/c18/main.go (Reset 65535x65535 colour type 6, Add6 x 16777216)")
+	}
+}
+
 func main() {
 	r := hlib.Start("C18")
 	if r.IsGen() {
@@ -935,7 +987,7 @@ func main() {
 	}
 	nCases, maxUnits := 260, 40
 	if r.Thorough {
-		nCases, maxUnits = 4000, 400
+		nCases, maxUnits = 1500, 200
 	}
 	zz := refZigzag()
 	id := 0
@@ -962,6 +1014,9 @@ func main() {
 		}
 	}
 
+	if r.Thorough {
+		hugeImage(r)
+	}
 	divOps(r)
 	dctChecks(r)
 	allocCheck(r) // last, so that a failing case with a replayable op sequence is reported first
